@@ -95,3 +95,42 @@ func specPopRange(b []byte, lo, hi int) int {
 	}
 	return n
 }
+
+// GETRANGE / SUBSTR (C02): the half-open byte range [specRangeLo, specRangeHi)
+// of an n-byte value selected by start and end as redis defines it: negative
+// offsets count from the end, both ends clamp into the value (a negative end
+// that still lies before the value clamps to the first byte), an inverted
+// pair of negative offsets or an empty value selects nothing.
+func specRangeFrom(n, start int) int {
+	if start >= 0 {
+		return start
+	}
+	if n+start < 0 {
+		return 0
+	}
+	return n + start
+}
+
+func specRangeLast(n, end int) int {
+	e := end
+	if end < 0 {
+		e = n + end
+		if e < 0 {
+			e = 0
+		}
+	}
+	if e > n-1 {
+		e = n - 1
+	}
+	return e
+}
+
+func specRangeEmpty(n, start, end int) bool {
+	if n == 0 {
+		return true
+	}
+	if start < 0 && end < 0 && start > end {
+		return true
+	}
+	return specRangeFrom(n, start) > specRangeLast(n, end)
+}
